@@ -60,6 +60,7 @@ type exitPoint struct {
 }
 
 type Frame struct {
+	exitResults []string // result terms at the single exit (for `ghost exit` statements)
 	id      int
 	fn      *ssa.Function
 	parent  *Frame
@@ -673,6 +674,10 @@ func (vc *VC) store(n *Node, lv *LVal, val string) {
 		old := vc.cur(env, m.Name)
 		nv := vc.bump(env, m.Name)
 		n.assume(sEq(nv, app("store", old, lv.ref, storeIdx(app("select", old, lv.ref), lv.idx, val))))
+		if m == vc.byteMemIfDeclared() && len(lv.idx) == 1 {
+			// a single byte written: content identities of windows that do not contain it are unchanged
+			vc.bsFrame(n, app("select", nv, lv.ref), app("select", old, lv.ref), lv.idx[0], app("+", lv.idx[0], "1"))
+		}
 	case lvHeap:
 		if isAggregate(t) && len(lv.idx) == 0 {
 			s := t.Underlying().(*types.Struct)
